@@ -435,7 +435,7 @@ Definition fb_P (L : N) (pre rest : list byte) (i : N) (s : pfrom) : Prop := i =
 Definition fb_Q (L : N) (pre rest : list byte) (i o : N) (e : err) (s : pfrom) : Prop :=
   o <= i + nnat (length rest) /\ fb_bnd L (i + nnat (length rest)) s /\
   (e = EMore -> exists k, (k <= length rest)%nat /\ o = i + nnat k /\ fb_inv L (zpre k pre rest) o s) /\
-  (e = EOk \/ e = EMoreValues -> i <= o).
+  (e = EOk \/ e = EMoreValues -> i <= o /\ fb_bnd L o s).
 Definition fb_step_res (L : N) (pre rest : list byte) (i : N) (r : ires pfrom) : Prop :=
   match r with
   | Next k s' => (0 < k <= length rest)%nat /\ fb_P L (zpre k pre rest) (zrest k rest) (i + nnat k) s'
@@ -585,11 +585,13 @@ Lemma fb_eoh_ok L h pre rest i0 j ret e s : fb_bnd L i0 s -> j <= i0 -> po (fb_v
 Proof.
   intros Hb Hj Hv Hp Hs Hr Hr2 He. pose proof (fb_close_ok L pre rest i0 j s Hb Hj Hv Hp Hs) as H.
   unfold fb_endOfHdr. destruct (fb_close pre rest i0 j s) as [[s1|]|]; [|..]; try contradiction.
-  - destruct H as (Hb1 & Hni & Hpv). unfold fb_step_res, fb_Q. split; [exact Hr|]. split.
-    + apply (fb_bnd_mono L i0); [lia|]. destruct s1; unfold fb_bnd, pf_end in *; cbn -[N.add N.sub] in *.
+  - destruct H as (Hb1 & Hni & Hpv).
+    assert (Hb2 : fb_bnd L i0 (s1 <| fb_state := FbFIN |> <| fb_soffs := 0 |> <| fb_type := h |>)).
+    { destruct s1; unfold fb_bnd, pf_end in *; cbn -[N.add N.sub] in *.
       destruct Hb1 as (H1&H2&H3&H4&H5&H6&H7&H8&H9&H10&H11&H12). repeat split; auto; try lia.
-      intros _. destruct Hb as (_&_&_&_&_&_&_&_&_&_&_&G). rewrite Hpv. apply G. exact Hni.
-    + split; [intros E; congruence|intros _; exact Hr2].
+      intros _. destruct Hb as (_&_&_&_&_&_&_&_&_&_&_&G). rewrite Hpv. apply G. exact Hni. }
+    unfold fb_step_res, fb_Q. split; [exact Hr|]. split; [apply (fb_bnd_mono L i0); [lia|exact Hb2]|].
+    split; [intros E; congruence|intros _; split; [exact Hr2|apply (fb_bnd_mono L i0); [exact Hr2|exact Hb2]]].
   - unfold fb_step_res, fb_Q. split; [exact Hr|]. split; [apply (fb_bnd_mono L i0); [lia|exact Hb]|].
     split; [intros E; destruct (fb_state s); discriminate|intros [E|E]; destruct (fb_state s); discriminate].
 Qed.
@@ -682,7 +684,7 @@ Qed.
 Lemma fb_ret_ok L pre rest i e s : fb_bnd L i s -> e <> EMore -> fb_step_res L pre rest i (Ret i e s).
 Proof.
   intros Hb He. unfold fb_step_res, fb_Q. split; [lia|]. split; [apply (fb_bnd_mono L i); [lia|exact Hb]|].
-  split; [intros E; congruence|intros _; lia].
+  split; [intros E; congruence|intros _; split; [lia|exact Hb]].
 Qed.
 
 (* the tactic for "one byte further, these fields changed" *)
@@ -955,7 +957,7 @@ Theorem nameaddr_safe L h buf offs s : offs <= nnat (length buf) ->
   match parse_nameaddr h buf offs s with
   | Done o e s' => o <= nnat (length buf) /\ fb_bnd L (nnat (length buf)) s' /\
                    (e = EMore -> offs <= o /\ fb_inv L (rev (firstn (N.to_nat o) buf)) o s') /\
-                   (e = EOk \/ e = EMoreValues -> offs <= o)
+                   (e = EOk \/ e = EMoreValues -> offs <= o /\ fb_bnd L o s')
   | _ => False
   end.
 Proof.
@@ -983,7 +985,40 @@ Proof.
   - intros He. destruct (H3 He) as (k & Hk & Ho & Hinv'). split; [unfold nnat in *; lia|].
     rewrite (zpre_whole_prefix p' r' k buf Hw Hk) in Hinv'.
     replace (N.to_nat o) with (length p' + k)%nat by (unfold nnat in *; lia). exact Hinv'.
-  - intros He. specialize (H4 He). lia.
+  - intros He. destruct (H4 He). split; [lia|assumption].
 Qed.
 Lemma pfrom0_inv L pre o : L <= o -> fb_inv L pre o pfrom0.
 Proof. intros H. unfold fb_inv, pf_end. cbn. repeat split; auto; try lia; try discriminate; intros; congruence. Qed.
+
+(* ---- an inner parser run at the zipper of an outer iteration ------------------------------------------------------- *)
+Lemma run_as_parse {St} (iter : list byte -> list byte -> N -> St -> ires St) pre rest i s :
+  i = nnat (length pre) -> run iter pre rest i 0 s = parse iter (rev pre ++ rest) i s.
+Proof.
+  intros Hi. unfold parse, zinit. subst i. unfold nnat. rewrite Nat2N.id.
+  rewrite firstn_app, rev_length, Nat.sub_diag. cbn [firstn]. rewrite app_nil_r.
+  rewrite firstn_all2 by (rewrite rev_length; lia). rewrite rev_involutive.
+  rewrite skipn_app, rev_length, Nat.sub_diag. cbn [skipn]. rewrite skipn_all2 by (rewrite rev_length; lia). reflexivity.
+Qed.
+
+Lemma fb_run_ok L h pre rest i s : fb_P L pre rest i s ->
+  match run (fb_iter h) pre rest i 0 s with
+  | Done o e s' => o <= i + nnat (length rest) /\ fb_bnd L (i + nnat (length rest)) s' /\
+                   (e = EMore -> exists k, (k <= length rest)%nat /\ o = i + nnat k /\ fb_inv L (zpre k pre rest) o s') /\
+                   (e = EOk \/ e = EMoreValues -> i <= o /\ fb_bnd L o s')
+  | _ => False
+  end.
+Proof.
+  intros [Hi Hinv]. rewrite (run_as_parse (fb_iter h) pre rest i s Hi).
+  pose proof (nameaddr_safe L h (rev pre ++ rest) i s) as H.
+  assert (Hlen : nnat (length (rev pre ++ rest)) = i + nnat (length rest)) by (rewrite app_length, rev_length; unfold nnat in *; lia).
+  rewrite Hlen in H.
+  assert (Hpre : rev (firstn (N.to_nat i) (rev pre ++ rest)) = pre).
+  { subst i. unfold nnat. rewrite Nat2N.id, firstn_app, rev_length, Nat.sub_diag. cbn [firstn]. rewrite app_nil_r.
+    rewrite firstn_all2 by (rewrite rev_length; lia). apply rev_involutive. }
+  rewrite Hpre in H. specialize (H ltac:(lia) Hinv).
+  unfold parse_nameaddr in H. destruct (parse (fb_iter h) (rev pre ++ rest) i s) as [o e s'| |]; auto.
+  destruct H as (H1 & H2 & H3 & H4). split; [exact H1|]. split; [exact H2|]. split; [|exact H4].
+  intros He. destruct (H3 He) as [Ho Hinv']. exists (N.to_nat (o - i)). split; [unfold nnat in *; lia|]. split; [unfold nnat; lia|].
+  rewrite (zpre_whole_prefix pre rest (N.to_nat (o - i)) (rev pre ++ rest) eq_refl) by (unfold nnat in *; lia).
+  replace (length pre + N.to_nat (o - i))%nat with (N.to_nat o) by (unfold nnat in *; lia). exact Hinv'.
+Qed.
